@@ -64,7 +64,7 @@ func runC10(c *an.Ctx) {
 		pos token.Pos
 	}
 	W := map[string][]store{}
-	for _, f := range p.Fns {
+	for _, f := range p.Units() {
 		if f.Pkg != p.Jet || f.Body == nil || strings.HasPrefix(f.Name, "var:pool_State") {
 			continue
 		}
@@ -409,7 +409,7 @@ func rangerPools(c *an.Ctx, rule string) {
 func poolDiscipline(c *an.Ctx, rule string) {
 	p := c.P
 	n := 0
-	for _, f := range p.Fns {
+	for _, f := range p.Units() {
 		if f.Pkg != p.Jet || f.Body == nil {
 			continue
 		}
